@@ -108,7 +108,7 @@ WellFormedInst(I) ==
 
 SingleWorkerPools(I) == \A p \in PoolIds(I) : Len(I.pools[p].av) = 1
 
------------------------------------------------------------------------------------------------------------------------------------------------------
+-----------------------------------------------------------------------------
 (* the policy keys; smaller = more urgent.  Python's sorted() is stable, so  *)
 (* equal keys keep the offer order.                                           *)
 \* Task.remaining_time of a RELEASED task: runtime of its slowest strategy
